@@ -1,17 +1,3 @@
-"""Source of MANIFEST.json (bin/mkmanifest)."""
-_TB = ("Trusted: Coq 8.16.1 kernel + vm_compute; no axioms (Print Assumptions: closed under the global "
-       "context); the hand-written model is tied to /repo by the per-run correspondence check (differential, "
-       "as good as its generators); ")
-CLAIMED = {
- "C12": {
-  "text": "Theorems for every range, every value of the two random draws and every operation script: Hull-Dobell "
-          "full period for 2^k moduli, random_range is a permutation and terminates, UpdatableRandomRange never "
-          "repeats, extension is complete, a move shows only new values. Tied to randomized_range.py by comparing "
-          "full output sequences with injected draws (exhaustive for small sizes) and generator parameters at 2^k, 2^k+-1.",
-  "design_ref": "DESIGN.md section 5 C12",
-  "note": _TB + "modelled: snowfakery/utils/randomized_range.py (whole file). Python ints = Z.",
-  "technique": "Coq proof (induction on exponent / invariant over op scripts) + vm_compute correspondence with injected random draws",
- },
-}
+"""Reasons for properties that have no registered check yet (bin/mkmanifest). Claimed checks live in harness/manifest/Cxx.json."""
 _NY = "not yet built in this framework (planned, see DESIGN.md section 10); no check is registered"
 NOT_APPLICABLE = {f"C{i:02d}": _NY for i in range(1, 21)}
